@@ -48,13 +48,55 @@ def oracle(ctx, case, heap, obs, desc):
                     sorted(set(top.keys()) - got), lim["max_vars"], len(top)), desc, tag="locals-first")
 
 
+def interleaved(ctx, n, lits, cj):
+    """Two tracepoints with different limits hit by two threads at overlapping times (forced: thread B's whole hit
+    happens while thread A's collector is rendering one of A's locals): each snapshot obeys ITS OWN limits."""
+    for i in range(n):
+        rng = ctx.rng
+        small = dict(max_vars=rng.choice([2, 3, 5, 10]), max_coll=rng.choice([1, 2, 3]), max_depth=rng.choice([2, 3]),
+                     max_str=rng.choice([1, 5, 10]))
+        big = dict(max_vars=1000, max_coll=10, max_depth=8, max_str=1024)
+        a_small = rng.random() < 0.7
+        case_a = e1.gen_case(rng, hostile_p=0.0, limits=small if a_small else big, max_nodes=40, n_frames=1, n_watch=0)
+        case_b = e1.gen_case(rng, hostile_p=0.0, limits=big if a_small else small, max_nodes=40, n_frames=1, n_watch=0)
+        case_a["frame_type"] = case_b["frame_type"] = "single_frame"
+        hook = e1.Hook()
+        items = list(case_a["frames"][0]["locals"].items())
+        items.insert(rng.choice([0, 0, len(items) // 2]), ("hk", hook))
+        d = case_a["frames"][0]["locals"]
+        d.clear()
+        d.update(items)
+        case_a["frames"][0]["file"], case_b["frames"][0]["file"] = "/app/src/ta.py", "/app/src/tb.py"
+        heap_a, heap_b = e1.read_heap(case_a), e1.read_heap(case_b)
+        snaps, raised = e1.run_pair(case_a, case_b, hook)
+        desc = dict(schedule="thread B's whole hit at tp-b happens while thread A's collector renders local 'hk' of tp-a"
+                    if hook.fired else "sequential (the budget of tp-a never reached 'hk')",
+                    tp_a=e1.describe(case_a, heap_a), tp_b=e1.describe(case_b, heap_b))
+        ctx.case(dict(a=desc["tp_a"]["limits"], b=desc["tp_b"]["limits"], interleaved=bool(hook.fired),
+                      heap=[(h["ty"], h["kind"], len(h["children"])) for h in desc["tp_a"]["heap"]]),
+                 nontrivial=bool(hook.fired), bucket="two-thread limits")
+        if raised is not None or set(snaps) != {"tp-a", "tp-b"}:
+            ctx.fail("snapshots %s for two overlapping hits (%r)" % (sorted(snaps), raised), desc, kind="schedule", tag="no-snapshot")
+            continue
+        for tid, case, heap in (("tp-a", case_a, heap_a), ("tp-b", case_b, heap_b)):
+            dk = dict(desc, snapshot_of=tid)
+            try:
+                obs = e1.observe(snaps[tid], heap)
+                oracle(ctx, case, heap, obs, dk)
+                lits.append(e1.snap_literal(case, heap, obs, e1.collect_flags(case)))
+                cj.append(dk)
+            except ValueError as ex:
+                ctx.fail("snapshot of %s cannot be related to that thread's objects: %s" % (tid, ex), dk, kind="schedule", tag="unrelated")
+
+
 def run(ctx, focus="C05"):
     import logging
     logging.getLogger("deep").setLevel(logging.CRITICAL + 1)
     ctx.rule = ("synthetic frame chains (1-3 frames) whose locals hold generated object graphs (scalars, long strings, "
                 "lists/tuples/sets/dicts/objects, sharing, cycles, hostile values) x limits max_variables in {0,1,2,3,5,10,30,1000}, "
                 "max_collection_size in {0,1,2,3,10}, max_var_depth in {0..5,8}, max_string_length in {0,1,5,10,64,1024} x "
-                "frame_type x 0-3 watches, driven through the real TriggerHandler.trace_call. Non-trivial: the snapshot "
+                "frame_type x 0-3 watches, driven through the real TriggerHandler.trace_call; plus two tracepoints with different "
+                "limits hit by two threads, one hit forced to happen in the middle of the other's collection. Non-trivial: the snapshot "
                 "table is non-empty; distinct: distinct (limits, heap shape) description.")
     ctx.assumptions = [
         "id() is injective on the objects alive during one trigger (all generated objects are kept alive)",
@@ -84,6 +126,7 @@ def run(ctx, focus="C05"):
                 cj.append(desc)
             except ValueError as ex:
                 ctx.fail("snapshot cannot be related to the program's objects: %s" % ex, desc, tag="unrelated")
+        interleaved(ctx, 150 if ctx.thorough else 30, lits, cj)
     finally:
         e1.restore_clock(saved)
     ctx.correspond("collector", e1.IMPORTS, "snap_case", "check_snap_case", lits, cj, shard=60)
